@@ -4,6 +4,7 @@
    away a path under cas/; the only calls naming a CAS path are `rename staging -> cas` and `unlink`. *)
 From Cas Require Import History.
 From CasProofs Require Import StoreFS StoreInv StoreWrite StoreRead StoreHist.
+From CasProofs Require CrashInv CrashCas.
 
 Theorem C06_cas_immutable :
   forall H : bytes -> bytes,
@@ -41,3 +42,13 @@ Proof. cbn. unfold not_cas, is_staging. intuition. Qed.
 (* every crash prefix of such a trace is an intermediate filesystem of the run, so CasNamed at
    "every instant" follows from CasNamed after every single call; the per-call statement is in
    proofs/StoreWrite.v (Post), the crash-prefix statement in props/C03.v *)
+
+(* at every crash point: CasNamed holds in whatever state a crash leaves, for every program built
+   from calls that never write under cas/ (all store programs: proofs/CrashCas.v) *)
+Theorem C06_every_crash_point :
+  forall (H : bytes -> bytes) (cfg : config), 0 < c_n cfg ->
+  forall (A : Type) (prog : M A) (x : fs) (n : nat),
+    CrashInv.WalkM (CrashCas.CasOk H) prog -> FsWf x -> CasNamed H x ->
+    CasNamed H (crash_fs n (rev (wtrace (snd (prog (init_world x None))))) x).
+Proof. exact CrashCas.cas_named_crash_fs. Qed.
+Print Assumptions C06_every_crash_point.
